@@ -88,6 +88,20 @@ Theorem c15_error_only_if_source_fired : forall eqv v0 es a x w v e,
 Proof. exact error_only_if_source_fired. Qed.
 Print Assumptions c15_error_only_if_source_fired.
 
+(* The monitors are tied to the model: for every event list, running the monitors on the model's own observations
+   (along the schedule-level step the correspondence replays) reports nothing; and the whole checker accepts the
+   model's own run whenever every event is accepted. *)
+Theorem c15_model_satisfies_monitors : forall cfg evs,
+  monitor mon 0 (minit cfg) [] evs (run_obs hstep (hinit cfg) evs) = [].
+Proof. exact model_satisfies_monitors. Qed.
+Print Assumptions c15_model_satisfies_monitors.
+
+Theorem c15_run_check_accepts_model : forall cfg evs,
+  length (run_obs hstep (hinit cfg) evs) = length evs ->
+  run_check_ccontainer cfg evs (run_obs hstep (hinit cfg) evs) = [].
+Proof. exact run_check_accepts_model. Qed.
+Print Assumptions c15_run_check_accepts_model.
+
 (* ---- non-vacuity ---- *)
 Definition noeq : N -> N -> bool := eq_of_code 0.
 
